@@ -252,6 +252,11 @@ fn gen_state_history(tape: &[u8]) -> HistoryCase {
         files.push((format!("q/good{}.graphql", k), Some(text)));
         docs.push((format!("q/good{}.graphql", k), false));
     }
+    // the same fragment reaching one variant twice (directly and through an inline fragment), and two
+    // fragments whose member names coincide: whatever the generator does about the clash, it must do
+    // the same thing on every call
+    files.push(("q/twice.graphql".into(), Some("query Twice { uni { __typename ...AInfo ... on A { ...AInfo } } node { __typename ...AInfo ...a_info } }\nfragment AInfo on A { extra }\nfragment a_info on A { id }\n".to_string())));
+    docs.push(("q/twice.graphql".into(), false));
     let n_calls = t.range(6, 24);
     let mut calls = Vec::new();
     for _ in 0..n_calls {
